@@ -158,9 +158,10 @@ def decode_positions(ix):
     return out
 
 
-def elements(x, apply_phases=True, tol=0.0):
+def elements(x, apply_phases=True, tol=0.0, per_axis=False):
     """Every non-zero stored element keyed by its coordinate on elementary
-    legs: dict ((leafcharge, leafpos), ...) -> value."""
+    legs: dict ((leafcharge, leafpos), ...) -> value.  With per_axis=True the
+    key is a tuple with one tuple of leaf coordinates per axis of x."""
     decs = [decode_positions(ix) for ix in x.indices]
     ph = phases_of(x) if apply_phases else {}
     out = {}
@@ -178,9 +179,12 @@ def elements(x, apply_phases=True, tol=0.0):
                 )
             lists.append(lst)
         for pos in np.argwhere(np.abs(blk) > tol):
-            key = ()
-            for ax, p in enumerate(pos):
-                key += lists[ax][p]
+            if per_axis:
+                key = tuple(lists[ax][p] for ax, p in enumerate(pos))
+            else:
+                key = ()
+                for ax, p in enumerate(pos):
+                    key += lists[ax][p]
             v = blk[tuple(pos)] * sgn
             if key in out:
                 raise Discrepancy(
